@@ -811,4 +811,18 @@ theorem sortDesc_binOf (l : List (Nat × DS)) (b : Nat) : binOf (sortDesc l) b =
   have := foldl_insertDesc_spec l [] (by simp [SortedDesc]) b
   simpa [sortDesc, binOf] using this
 
+/-! ### import intervals through save → load -/
+
+theorem decode_encode_iv (i : Iv) : decodeIv (encodeIv i) = i := by cases i; rfl
+
+theorem reloadIntervals_eq (ivs : List Iv) : reloadIntervals ivs = ivs := by
+  unfold reloadIntervals
+  rw [List.map_map]
+  have : (decodeIv ∘ encodeIv) = id := by funext i; exact decode_encode_iv i
+  rw [this, List.map_id]
+
+theorem closedIv_covers (c : Nat) (iv : Nat × Nat) (p : Nat) : (closedIv c iv).covers c p = covers p iv := by
+  unfold closedIv Iv.covers covers
+  simp
+
 end HailVerif.Combiner
